@@ -174,6 +174,22 @@ ROUND11 = {
     'C18': " Round 11: the key stored in the facet is the key that passed the reserved-name test, and names the facet's base class defines are reserved too.",
 }
 
+# obligations added in round 12
+ROUND12 = {
+    'C01': " Round 12: MQ.recv hands the state of every set it returns on to the next send (a state left over from a skipped set is not kept).",
+    'C03': " Round 12: share of the zero-copy / raw-snapshot obligations of C02.R12 and C09.R8.",
+    'C05': " Round 12: the per-id set of a listener is never the subscription template itself (share of C01.R8 / R11).",
+    'C06': " Round 12: the repeated request of a waiting receiver reaches every source whose set is incomplete (a restarted source learns of its consumer from it).",
+    'C07': " Round 12: a balanced join's lock is released only where the half set it belongs to is dropped (share of C06.R18).",
+    'C08': " Round 12: a deadline given as a time of day means today in the zone the time is read in; a local date / time gets the UTC offset in force on that date; a publisher that can not bind all its sockets releases the ones it bound.",
+    'C09': " Round 12: a frame built without data gets a dict of its own (no function of the codec hands out a mutable default).",
+    'C12': " Round 12: the auto-chaining probe answers for the class it is asked about (nothing is cached on the class hierarchy).",
+    'C13': " Round 12: the budget and the file size reach the pruning / roll-over comparisons as configured.",
+    'C14': " Round 12: the position is saved to the file the next start reads (the head path is fixed, absolute, at construction).",
+    'C15': " Round 12: a piece of an address handed to int() was matched with digits only; model locations read from models.toml are configuration for the flow analysis.",
+    'C16': " Round 12: the teardown of a run shuts down the MeterProvider of its telemetry client (a finished run's exporter does not write into the next run).",
+}
+
 NOT_APPLICABLE = {
     'C11': 'Every clause is an equality between values computed by string parsing over an unbounded grammar; there is no renderer to pair with the parsers and the only structural facts in reach are already caught by the existing test_normalize_config tests, so a static proxy would detect nothing new (DESIGN.md §5).',
 }
@@ -188,7 +204,7 @@ def main():
         if pid not in reg:
             continue
         tech, text, ref, nd = CLAIMS[pid]
-        text += ROUND6.get(pid, '') + ROUND7.get(pid, '') + ROUND8.get(pid, '') + ROUND9.get(pid, '') + ROUND10.get(pid, '') + ROUND11.get(pid, '')
+        text += ROUND6.get(pid, '') + ROUND7.get(pid, '') + ROUND8.get(pid, '') + ROUND9.get(pid, '') + ROUND10.get(pid, '') + ROUND11.get(pid, '') + ROUND12.get(pid, '')
         checks.append({
             'property_id': pid,
             'quick_cmd': f'./check {pid} --tier quick',
